@@ -1300,7 +1300,7 @@ pub fn run_monitor(p: &Params, rep: &mut Report) {
         "sub-query rows are compared as multisets".into(),
         "ids containing quotes or backslashes are not generated (C09 finding)".into(),
     ];
-    let total: u64 = if p.thorough { 400000 } else { 400 };
+    let total: u64 = if p.thorough { 400000 } else { 6000 };
     for k in p.cases(total) {
         rep.current_case = p.case_coord(k);
         rep.cases += 1;
